@@ -55,6 +55,9 @@ def main(tier, seed):
                         m_.owner = hosts[0]
                         hosts[0].methods.append(m_)
                     tooltier.emit_rust.assign_abi_names(prog)
+            if i % 50 == 11 and b == "c":
+                # directed probe (known finding F56): two bridge modules declaring a type of the same identifier (legal Rust; C has no namespaces)
+                tooltier.same_name_namespaced(prog, random.Random("c15same/%s/%s" % (seed, i)))
             if i % 50 == 9 and b in ("dart", "kotlin"):
                 # directed probe (known finding F53): a type named like a core type of the target language
                 en_ = tooltier.spec.Enum("Object", [("Va", None), ("Vb", None)])
